@@ -17,8 +17,21 @@ def run(res, tier, seed, replay):
     else:
         streams = [("small", 255, 90 * k), ("conflict", 255, 40 * k), ("fanout", 88, 20 * k)]
         recs, hangs = al.run_async("c12", streams, seed + 83, extra)
+    # the same enumeration with a provider whose sort_candidates looks up dependencies through the SolverCache: polls made by
+    # the cache on behalf of the provider are cancellation points too
+    if replay:
+        recs2 = []
+        if "sort-deps" in open(replay).read():
+            recs2, _ = al.replay_async("c12", replay, extra + ["--sort-deps"])
+            recs = []
+    else:
+        recs2, h2 = al.run_async("c12", [("small", 255, 40 * k), ("conflict", 255, 20 * k)], seed + 87, extra + ["--sort-deps"])
+        hangs += h2
+    for r in recs2:
+        r["sort_deps"] = True
+    recs = recs + recs2
     al.judge(recs)
-    npoints, inflight_cancels = 0, 0
+    npoints, inflight_cancels, in_sort = 0, 0, 0
     for r in recs:
         key = ss.case_key(r["case"])
         base = {}
@@ -36,15 +49,28 @@ def run(res, tier, seed, replay):
             if kd in ("deadlock", "hang", "panic"):
                 res.violation(key, f"cancellation at poll {kk} ({lab}) ends in {kd}", al.replay_obj(r, run))
                 continue
+            # did the firing poll happen inside a sort_candidates call of the provider (between "o" and "oe")?
+            depth, fired_in_sort = 0, False
+            for c in run["calls"]:
+                if isinstance(c, dict) and "o" in c:
+                    depth += 1
+                elif isinstance(c, dict) and "oe" in c:
+                    depth -= 1
+                elif isinstance(c, dict) and "p" in c and c["p"][1]:
+                    fired_in_sort = depth > 0
+                    break
+            in_sort += fired_in_sort
+            vkey = "cancellation-observed-inside-sort_candidates" if (r.get("sort_deps") and fired_in_sort) else key
+            rep = dict(al.replay_obj(r, run), **({"sort-deps": True} if r.get("sort_deps") else {}))
             if kd != "cancelled" or s["outcome"]["cancelled"] != kk:
-                res.violation(key, f"should_cancel_with_value returned a value at poll {kk} ({lab}) but solve returned {s['outcome']}",
-                              al.replay_obj(r, run))
+                res.violation(vkey, f"should_cancel_with_value returned a value at poll {kk} ({lab}"
+                              f"{', inside sort_candidates' if fired_in_sort else ''}) but solve returned {s['outcome']}", rep)
             if not run["quiet"]:
-                res.violation(key, f"a provider request was started after the poll that returned the cancellation value (poll {kk}, {lab})",
-                              al.replay_obj(r, run))
+                res.violation(vkey, f"a provider request was started after the poll that returned the cancellation value (poll {kk}, {lab}"
+                              f"{', inside sort_candidates' if fired_in_sort else ''})", rep)
         res.sample({"problem": r["case"]["p"], "cancellation_points": sum(1 for x in r["runs"] if x["label"].endswith("-cancel"))}, limit=2)
     res.rule = ("fault enumeration: every poll index k < N of the uncancelled run (N <= 60 quick / 200 thorough, sampled beyond), the "
                 "value fires at exactly that poll (transient), in sync and scheduled-async runs incl. while other requests are in flight; "
                 "non-trivial = every (case, runtime, k)")
-    res.extra.update({"cancellation_points": npoints, "hangs": len(hangs)})
+    res.extra.update({"cancellation_points": npoints, "cancellation_points_inside_sort_candidates": in_sort, "hangs": len(hangs)})
     return res.finish(CHECKER, vlib.TRUSTED_BASE, ["'polling has no effect when it never fires' is structural: the provider's answer is the only thing the solver reads"])
